@@ -54,4 +54,9 @@ theorem round_machines_were_searched :
      "fsm/state_machines/signature_proposal_fsm", "fsm/state_machines/signing_proposal_fsm", "fsm/types/requests",
      "client/services/fsmservice"].all (fun d => MoreFacts.clockDirs.contains d) = true := by decide
 
+/-- the poll tick and `SaveOffset` both hold `tickMu` from their first statement to their return (fix 62396d7): an offset saved
+through the API lands between two ticks, never inside one (C14) -/
+theorem tick_and_saveoffset_exclude : MoreFacts.tickLocked =
+    [("tick", "s.tickMu.Lock() ; defer s.tickMu.Unlock()"), ("SaveOffset", "s.tickMu.Lock() ; defer s.tickMu.Unlock()")] := by decide
+
 end Dc4bcVerif.Props.SrcFacts
